@@ -279,12 +279,15 @@ fn check_programs(tier: &str, seed: u64, backend: Option<&str>) -> Vec<Summary> 
     macro_rules! one {
         ($B:ty, $M:ty, $name:expr, $maxenv:expr, $tgt:expr) => {{
             if backend.map(|b| b == $name).unwrap_or(true) {
-                let cases: Vec<(u64, usize)> = (0..n).map(|k| (seed.wrapping_mul(7_000_003).wrapping_add(k * 2 + 1), 2 + (k % 4) as usize)).collect();
+                // the bound on the environment size varies with the case: small environments (registers only), the
+                // backend's comfortable size, and larger ones that push more variables into spill slots
+                let cases: Vec<(u64, usize, usize)> = (0..n).map(|k| (seed.wrapping_mul(7_000_003).wrapping_add(k * 2 + 1), 2 + (k % 4) as usize,
+                    match (k / 4) % 3 { 0 => $maxenv, 1 => $maxenv / 2 + 1, _ => $maxenv + $maxenv / 2 + 2 })).collect();
                 let nontriv = Arc::new(AtomicU64::new(0));
                 let nt = nontriv.clone();
-                let (total, fails) = par_run(cases, move |(sd, depth)| {
+                let (total, fails) = par_run(cases, move |(sd, depth, menv)| {
                     let tgt = $tgt;
-                    if progs::check_program::<$B, $M, _>(*sd, *depth, $maxenv, &tgt)? {
+                    if progs::check_program::<$B, $M, _>(*sd, *depth, *menv, &tgt)? {
                         nt.fetch_add(1, Ordering::Relaxed);
                     }
                     Ok(())
@@ -294,7 +297,7 @@ fn check_programs(tier: &str, seed: u64, backend: Option<&str>) -> Vec<Summary> 
                 s.bound = format!("{n} random small programs (as for linearize), linearized, compiled by coder::compile (+ routine), executed on the machine model from its entry with a zero-filled heap; print calls and result compared with the AxCut reference machine; programs outside the backend's capacity or with undefined arithmetic are skipped");
                 s.cases = total;
                 s.nontrivial = nontriv.load(Ordering::Relaxed);
-                s.samples = vec![format!("Gen::program(seed={}, depth=3)", seed.wrapping_mul(7_000_003).wrapping_add(1))];
+                s.samples = vec![format!("Gen::program(seed={}, depth=2, max_env={})", seed.wrapping_mul(7_000_003).wrapping_add(1), $maxenv)];
                 s.violations = fails.iter().map(|f| f.json(&format!("native::{}::compile::behaves-like-axcut-machine", $name), $name)).collect();
                 out.push(s);
             }
